@@ -44,8 +44,12 @@ def build_array(vals, shape, layout, dtype):
         return vals[0]
     if layout == "npscalar":
         return dtype(vals[0])
+    if layout == "broadcast":               # rows repeated by broadcasting (a read-only view with zero strides)
+        return np.broadcast_to(np.array(vals[:shape[-1]], dtype=dtype), tuple(shape))
     a = np.array(vals, dtype=dtype).reshape(shape)
-    if layout == "t":                       # a transposed (non C-contiguous) view with the same elements
+    if layout == "readonly":
+        a.flags.writeable = False
+    elif layout == "t":                       # a transposed (non C-contiguous) view with the same elements
         a = np.ascontiguousarray(a.T).T
     elif layout == "strided":               # every other element of a larger buffer
         big = np.zeros(a.shape[:-1] + (2 * a.shape[-1],), dtype=dtype) if a.ndim else None
@@ -55,6 +59,17 @@ def build_array(vals, shape, layout, dtype):
     elif layout == "f":
         a = np.asfortranarray(a)
     return a
+
+
+def snapshot(arr):
+    """The exact content (bytes, logical order) of an array argument, None for a Python scalar."""
+    return np.array(arr, copy=True).tobytes() if isinstance(arr, (np.ndarray, np.generic)) else None
+
+
+def to_fix_result(r):
+    return dict(shape=list(np.shape(r)), dtype=str(getattr(r, "dtype", type(r).__name__)),
+                vals=[int(v) for v in np.asarray(r).reshape(-1)],
+                isarray=isinstance(r, (np.ndarray, np.generic)))
 
 
 def run_group(g):
@@ -98,12 +113,26 @@ def run_group(g):
         if err:
             return dict(array=err, scalar=scal)
         arr = build_array(xs, g["shape"], g["layout"], getattr(np, g.get("dtype", "float64")))
+        before = snapshot(arr)
         r = guarded(lambda: conv(arr))
+        same = snapshot(arr) == before
         if isinstance(r, str):
-            return dict(array=r, scalar=scal)
-        return dict(array=dict(shape=list(np.shape(r)), dtype=str(getattr(r, "dtype", type(r).__name__)),
-                               vals=[int(v) for v in np.asarray(r).reshape(-1)],
-                               isarray=isinstance(r, (np.ndarray, np.generic))), scalar=scal)
+            return dict(array=r, scalar=scal, input_unchanged=same)
+        return dict(array=to_fix_result(r), scalar=scal, input_unchanged=same)
+    if kind == "npseq":
+        # ONE input array object handed to several converters in turn
+        xs = [b2f(b) for b in g["xs"]]
+        arr = build_array(xs, g["shape"], g["layout"], getattr(np, g.get("dtype", "float64")))
+        before = snapshot(arr)
+        steps = []
+        for (s_, n_, f_) in g["formats"]:
+            conv, err = construct(tc.NumpyFloatToFixConverter, "fail1", s_, n_, f_)
+            sc, e2 = construct(tc.float_to_fp, None, s_, n_, f_)
+            scal = [e2 if e2 else guarded(lambda: int(sc(x))) for x in xs]
+            r = err if err else guarded(lambda: conv(arr))
+            steps.append(dict(array=r if isinstance(r, str) else to_fix_result(r), scalar=scal,
+                              input_unchanged=snapshot(arr) == before))
+        return steps
     if kind == "npback":
         conv = tc.NumpyFixToFloatConverter(f)
         sc, e2 = construct(tc.fp_to_float, None, f)
@@ -113,12 +142,14 @@ def run_group(g):
             x = e2 if e2 else guarded(lambda: sc(v))
             scal.append(x if isinstance(x, str) else f2b(x))
         arr = build_array(g["vs"], g["shape"], g["layout"], dtype)
+        before = snapshot(arr)
         with np.errstate(all="ignore"):
             r = guarded(lambda: conv(arr))
+        same = snapshot(arr) == before
         if isinstance(r, str):
-            return dict(array=r, scalar=scal)
+            return dict(array=r, scalar=scal, input_unchanged=same)
         return dict(array=dict(shape=list(np.shape(r)), dtype=str(getattr(r, "dtype", type(r).__name__)),
-                               vals=[f2b(v) for v in np.asarray(r).reshape(-1)]), scalar=scal)
+                               vals=[f2b(v) for v in np.asarray(r).reshape(-1)]), scalar=scal, input_unchanged=same)
     raise ValueError(kind)
 
 
